@@ -14,8 +14,11 @@ Definition opCustomDice : N := 56.   (* typeCustomDice; checked against bytecode
 Definition c17_ok (c : c17_case) : bool :=
   let '(tbl, fl, bytes, (ok, off_, cnt_, (mo, ml, mc), ops)) := c in
   let r := run_model_custom tbl fl bytes in
-  let mok := r_ok r && (r_errs r =? 0) in
-  if r_panic r then false else if r_unknown r then false else if r_fuelout r then false else
+  (* r_panic = a helper stack of the parser data (names / counters / jumps / code / flags) was popped while empty: since
+     the repair "unbalanced parser helper stacks make Parse fail with an error" this records codeErr and Parse returns
+     an error; the parse itself (offset, ExprCnt, furthest failure) goes on *)
+  let mok := r_ok r && (r_errs r =? 0) && negb (r_panic r) in
+  if r_unknown r then false else if r_fuelout r then false else
   if negb (Bool.eqb mok ok) then false else
   if negb (r_cnt r =? cnt_) then false else
   if negb (let '(a, b, c') := r_mf r in (a =? mo) && (b =? ml) && (c' =? mc)) then false else
